@@ -127,6 +127,212 @@ fn enc_add(kp_msg: &[u8]) -> Vec<u8> {
     v
 }
 
+/// PublicMessage commit without path, signed with party `s`'s key for leaf `sleaf` of `epoch`; `entries` are
+/// ProposalOrRef items (1 = proposal by value, 2 = reference)
+pub fn build_forged(
+    w: &World,
+    s: usize,
+    g: usize,
+    epoch: u64,
+    sleaf: u32,
+    ctx: &[u8],
+    entries: &[(u8, Vec<u8>)],
+    mk: &[u8],
+    confirmation_tag: &[u8],
+) -> Option<Vec<u8>> {
+    let mut content = vec![];
+    put_vec(&mut content, &w.groups[g].gid);
+    content.extend_from_slice(&epoch.to_be_bytes());
+    content.push(1);
+    content.extend_from_slice(&sleaf.to_be_bytes());
+    put_vec(&mut content, &[]);
+    content.push(3);
+    let mut plist = vec![];
+    for (kind, p) in entries {
+        plist.push(*kind);
+        if *kind == 2 {
+            put_vec(&mut plist, p);
+        } else {
+            plist.extend_from_slice(p);
+        }
+    }
+    put_vec(&mut content, &plist);
+    content.push(0); // no path
+    let mut tbs = vec![0, 1, 0, 1];
+    tbs.extend_from_slice(&content);
+    tbs.extend_from_slice(ctx);
+    let mut sign_content = vec![];
+    put_vec(&mut sign_content, b"MLS 1.0 FramedContentTBS");
+    put_vec(&mut sign_content, &tbs);
+    let csp = w.csp(s);
+    let sig = csp.sign(&w.parties[s].signer, &sign_content).ok()?;
+    let alg = HashAlg::for_suite(w.cfg.suite);
+    let mut auth = vec![];
+    put_vec(&mut auth, &sig);
+    put_vec(&mut auth, confirmation_tag);
+    let mut tbm = tbs.clone();
+    tbm.extend_from_slice(&auth);
+    let tag = alg.hmac(mk, &tbm);
+    let mut msg = vec![0, 1, 0, 1];
+    msg.extend_from_slice(&content);
+    msg.extend_from_slice(&auth);
+    put_vec(&mut msg, &tag);
+    Some(msg)
+}
+
+/// ProposalRef of a public proposal message (RFC 9420 §5.2: RefHash over the AuthenticatedContent)
+pub fn proposal_ref_of(suite: u16, bytes: &[u8]) -> Option<Vec<u8>> {
+    let l = crate::c13::public_layout(bytes)?;
+    let alg = HashAlg::for_suite(suite);
+    let mut input = vec![];
+    put_vec(&mut input, b"MLS 1.0 Proposal Reference");
+    put_vec(&mut input, &bytes[2..l.auth_end]);
+    Some(alg.hash(&input))
+}
+
+fn membership_key(w: &World, s: usize, g: usize) -> Option<Vec<u8>> {
+    let grp = w.parties[s].mems[g].group.as_ref()?;
+    for (name, bytes) in grp.verif_secrets().unwrap_or_default() {
+        if name == "key_schedule" {
+            let mut r = crate::refmls::Rd::new(&bytes);
+            let _ = r.vec();
+            let _ = r.vec();
+            let _ = r.vec();
+            return r.vec().ok().map(|v| v.to_vec());
+        }
+    }
+    None
+}
+
+/// B-FORGE-UPDATE: member `s` sends an Update proposal whose (correctly signed) leaf re-uses the HPKE key of
+/// another current member. Receivers cache it like any proposal; a committer must drop it (the key collides in
+/// the tree) without disturbing the other proposals of the commit.
+pub fn do_forge_update(w: &mut World, s: usize, g: usize, q: usize, victim: Option<usize>) -> VResult<bool> {
+    if !w.live(s, g) || w.cfg.encrypt_handshake || w.groups[g].reinit_at.is_some() {
+        return Ok(false);
+    }
+    let epoch = w.epoch_of(s, g).unwrap();
+    if epoch != w.groups[g].log.len() as u64 {
+        return Ok(false);
+    }
+    let Some(rec) = w.groups[g].records.get(&epoch).cloned() else { return Ok(false) };
+    let Some(members) = w.groups[g].members.get(&epoch).cloned() else { return Ok(false) };
+    let Some(sleaf) = members.get(&s).copied() else { return Ok(false) };
+    let leaf_key = rec.roster.iter().find(|(i, _, _)| *i == sleaf).map(|(_, _, k)| k.clone());
+    if leaf_key.as_deref() != Some(w.parties[s].signing_identity.signature_key.as_ref()) {
+        return Ok(false);
+    }
+    let Some(mk) = membership_key(w, s, g) else { return Ok(false) };
+    let Ok(tree) = crate::refmls::Tree::parse(&rec.tree) else { return Ok(false) };
+    let others: Vec<u32> = members.values().copied().filter(|l| *l != sleaf).collect();
+    if others.is_empty() {
+        return Ok(false);
+    }
+    let vleaf = victim.and_then(|v| members.get(&v).copied()).filter(|l| *l != sleaf).unwrap_or(others[q % others.len()]);
+    let (Some(mine), Some(victim)) = (tree.leaf(sleaf), tree.leaf(vleaf)) else { return Ok(false) };
+    // LeafNode: enc_key, [sig_key, credential, capabilities], source, extensions, signature
+    let raw = &mine.raw;
+    let mut r = crate::refmls::Rd::new(raw);
+    let parts = (|| -> Option<(usize, usize, Vec<u8>)> {
+        r.vec().ok()?;
+        let mid_start = r.pos;
+        r.vec().ok()?;
+        r.u16().ok()?;
+        r.vec().ok()?;
+        for _ in 0..5 {
+            r.vec().ok()?;
+        }
+        let mid_end = r.pos;
+        match r.u8().ok()? {
+            1 => {
+                r.u64().ok()?;
+                r.u64().ok()?;
+            }
+            2 => {}
+            3 => {
+                r.vec().ok()?;
+            }
+            _ => return None,
+        }
+        let ext = r.vec().ok()?.to_vec();
+        Some((mid_start, mid_end, ext))
+    })();
+    let Some((mid_start, mid_end, ext)) = parts else { return Ok(false) };
+    let mut leaf = vec![];
+    put_vec(&mut leaf, &victim.enc_key);
+    leaf.extend_from_slice(&raw[mid_start..mid_end]);
+    leaf.push(2); // leaf_node_source = update
+    put_vec(&mut leaf, &ext);
+    let mut tbs = leaf.clone();
+    put_vec(&mut tbs, &w.groups[g].gid);
+    tbs.extend_from_slice(&sleaf.to_be_bytes());
+    let csp = w.csp(s);
+    let mut sc = vec![];
+    put_vec(&mut sc, b"MLS 1.0 LeafNodeTBS");
+    put_vec(&mut sc, &tbs);
+    let Ok(lsig) = csp.sign(&w.parties[s].signer, &sc) else { return Ok(false) };
+    put_vec(&mut leaf, &lsig);
+    // FramedContent with a Proposal (update)
+    let mut content = vec![];
+    put_vec(&mut content, &w.groups[g].gid);
+    content.extend_from_slice(&epoch.to_be_bytes());
+    content.push(1);
+    content.extend_from_slice(&sleaf.to_be_bytes());
+    put_vec(&mut content, &[]);
+    content.push(2);
+    content.extend_from_slice(&[0, 2]);
+    content.extend_from_slice(&leaf);
+    let mut ftbs = vec![0, 1, 0, 1];
+    ftbs.extend_from_slice(&content);
+    ftbs.extend_from_slice(&rec.ctx);
+    let mut sc = vec![];
+    put_vec(&mut sc, b"MLS 1.0 FramedContentTBS");
+    put_vec(&mut sc, &ftbs);
+    let Ok(sig) = csp.sign(&w.parties[s].signer, &sc) else { return Ok(false) };
+    let alg = HashAlg::for_suite(w.cfg.suite);
+    let mut auth = vec![];
+    put_vec(&mut auth, &sig);
+    let mut tbm = ftbs.clone();
+    tbm.extend_from_slice(&auth);
+    let tag = alg.hmac(&mk, &tbm);
+    let mut bytes = vec![0, 1, 0, 1];
+    bytes.extend_from_slice(&content);
+    bytes.extend_from_slice(&auth);
+    put_vec(&mut bytes, &tag);
+    w.stats.fault("B-FORGE-UPDATE");
+    let id = w.new_msg_id();
+    w.ev(format!("forged update P{s} g{g} e{epoch} re-using the HPKE key of leaf {vleaf} id={id}"));
+    let msg = Msg {
+        id,
+        g,
+        kind: MsgKind::Proposal,
+        bytes,
+        sender: s,
+        epoch,
+        payload: vec![],
+        aad: vec![],
+        refs: vec![],
+        welcomes: vec![],
+        oob_tree: None,
+        external: false,
+        ext_psks: vec![],
+        res_psks: vec![],
+        private: false,
+        spec: None,
+        pspec: None,
+        time: w.clock,
+        gen: 0,
+    };
+    w.msgs.insert(id, msg);
+    w.groups[g].props.entry(epoch).or_default().push(id);
+    for p in members.keys() {
+        if *p != s {
+            w.mem(*p, g).inbox.push(id);
+        }
+    }
+    Ok(true)
+}
+
 pub fn do_forge(w: &mut World, s: usize, g: usize, template: u64, q: usize) -> VResult<bool> {
     if !w.live(s, g) || w.cfg.encrypt_handshake {
         return Ok(false);
@@ -139,23 +345,7 @@ pub fn do_forge(w: &mut World, s: usize, g: usize, template: u64, q: usize) -> V
     if leaf_key.as_deref() != Some(w.parties[s].signing_identity.signature_key.as_ref()) {
         return Ok(false);
     }
-    let mk = {
-        let grp = w.parties[s].mems[g].group.as_ref().unwrap();
-        let mut mk = None;
-        for (name, bytes) in grp.verif_secrets().unwrap_or_default() {
-            if name == "key_schedule" {
-                let mut r = crate::refmls::Rd::new(&bytes);
-                let _ = r.vec();
-                let _ = r.vec();
-                let _ = r.vec();
-                mk = r.vec().ok().map(|v| v.to_vec());
-            }
-        }
-        match mk {
-            Some(m) => m,
-            None => return Ok(false),
-        }
-    };
+    let Some(mk) = membership_key(w, s, g) else { return Ok(false) };
     let others: Vec<u32> = rec.roster.iter().map(|(i, _, _)| *i).filter(|i| *i != sleaf).collect();
     let victim = others.get(q % others.len().max(1)).copied();
     let mut r = crate::prng::Prng::new(crate::prng::mix(&[w.seed, w.step_no as u64, 0xf0f]));
@@ -204,40 +394,9 @@ pub fn do_forge(w: &mut World, s: usize, g: usize, template: u64, q: usize) -> V
             }
         }
     };
-    // FramedContent
-    let mut content = vec![];
-    put_vec(&mut content, &w.groups[g].gid);
-    content.extend_from_slice(&epoch.to_be_bytes());
-    content.push(1);
-    content.extend_from_slice(&sleaf.to_be_bytes());
-    put_vec(&mut content, &[]);
-    content.push(3);
-    let mut plist = vec![];
-    for p in &props {
-        plist.push(1u8);
-        plist.extend_from_slice(p);
-    }
-    put_vec(&mut content, &plist);
-    content.push(0); // no path
-    let mut tbs = vec![0, 1, 0, 1];
-    tbs.extend_from_slice(&content);
-    tbs.extend_from_slice(&rec.ctx);
-    let mut sign_content = vec![];
-    put_vec(&mut sign_content, b"MLS 1.0 FramedContentTBS");
-    put_vec(&mut sign_content, &tbs);
-    let csp = w.csp(s);
-    let Ok(sig) = csp.sign(&w.parties[s].signer, &sign_content) else { return Ok(false) };
-    let alg = HashAlg::for_suite(w.cfg.suite);
-    let mut auth = vec![];
-    put_vec(&mut auth, &sig);
-    put_vec(&mut auth, &r.bytes(alg.len()));
-    let mut tbm = tbs.clone();
-    tbm.extend_from_slice(&auth);
-    let tag = alg.hmac(&mk, &tbm);
-    let mut msg = vec![0, 1, 0, 1];
-    msg.extend_from_slice(&content);
-    msg.extend_from_slice(&auth);
-    put_vec(&mut msg, &tag);
+    let entries: Vec<(u8, Vec<u8>)> = props.iter().map(|p| (1u8, p.clone())).collect();
+    let tag_seed = r.bytes(HashAlg::for_suite(w.cfg.suite).len());
+    let Some(msg) = build_forged(w, s, g, epoch, sleaf, &rec.ctx, &entries, &mk, &tag_seed) else { return Ok(false) };
     w.stats.fault("B-FORGE");
     *w.stats.probes.entry(format!("forged-commit:{name}")).or_default() += 1;
     let receivers: Vec<usize> = w
@@ -285,5 +444,56 @@ pub fn do_forge(w: &mut World, s: usize, g: usize, template: u64, q: usize) -> V
             }
         }
     }
+    Ok(true)
+}
+
+/// Directed C10 scenario: one commit whose by-reference proposals contain a forged Update that collides in the
+/// tree, two Updates of one member, and other members' Updates; every member has cached all of them.
+pub fn do_update_clash(w: &mut World, c: usize, g: usize, pick: u64) -> VResult<bool> {
+    if !w.live(c, g) || w.cfg.encrypt_handshake || w.groups[g].reinit_at.is_some() {
+        return Ok(false);
+    }
+    let epoch = w.groups[g].log.len() as u64;
+    if w.epoch_of(c, g) != Some(epoch) || w.parties[c].mems[g].pending.is_some() {
+        return Ok(false);
+    }
+    let others: Vec<usize> = w
+        .live_members(g)
+        .into_iter()
+        .filter(|p| *p != c && w.epoch_of(*p, g) == Some(epoch) && w.parties[*p].mems[g].pending.is_none())
+        .collect();
+    if others.len() < 2 {
+        return Ok(false);
+    }
+    let a = others[pick as usize % others.len()];
+    let rest: Vec<usize> = others.iter().copied().filter(|p| *p != a).collect();
+    let b = rest[(pick >> 8) as usize % rest.len()];
+    if !do_forge_update(w, a, g, 0, Some(c))? {
+        return Ok(false);
+    }
+    w.stats.probe("update-clash-scenario");
+    let upd = PropSpec::Update { new_identity: false };
+    w.do_propose(b, g, &upd)?;
+    w.do_propose(b, g, &upd)?;
+    for d in rest.iter().filter(|p| **p != b).take(((pick >> 16) % 3) as usize) {
+        w.do_propose(*d, g, &upd)?;
+    }
+    // everybody caches everything that is addressed to them in this epoch
+    let mut everyone = others.clone();
+    everyone.push(c);
+    for p in everyone {
+        let ids: Vec<u64> = w.parties[p].mems[g]
+            .inbox
+            .iter()
+            .copied()
+            .filter(|i| w.msgs[i].kind == MsgKind::Proposal && w.msgs[i].epoch == epoch)
+            .collect();
+        for id in ids {
+            if w.live(p, g) && w.epoch_of(p, g) == Some(epoch) {
+                w.deliver_one(p, g, id, true)?;
+            }
+        }
+    }
+    w.do_commit(c, g, &CommitSpec::default())?;
     Ok(true)
 }
